@@ -6,7 +6,10 @@ from pyasn1.type import tag as ptag
 from pyasn1.codec.ber import encoder as ber_encoder
 from pyasn1.codec.ber import decoder as ber_decoder
 
-NUMS = [0, 1, 30, 31, 127, 128, 16383, 16384, 2 ** 32, 2 ** 64 + 1]
+NUMS = [0, 1, 30, 31, 127, 128, 16383, 16384, 2 ** 32, 2 ** 64 + 1, 2 ** 61 - 2, 2 ** 61 - 1, 2 ** 61]
+# numbers that collide under the interpreter's integer hash (mod 2**61 - 1) or under 32/64-bit truncation: a near miss
+# that differs from n by one of these must still be refused
+COLLIDERS = [2 ** 61 - 1, 2 * (2 ** 61 - 1), 2 ** 32, 2 ** 64, 128, 2 ** 7 * 3]
 BASES = [('bool',), ('int',), ('enum',), ('bits',), ('null',), ('oid',), ('real',), ('str', 4), ('str', 12),
          ('str', 22), ('str', 30), ('seq', [('r', None, ('int',))]), ('set', [('r', None, ('null',))]),
          ('seqof', ('bool',)), ('setof', ('int',)),
@@ -41,7 +44,7 @@ def perturb(rng, t, pos):
         cls = rng.choice([c for c in 'acp' if c != tg[2]])
         new = ('tag', tg[1], cls, tg[3], tg[4])
     else:
-        num = tg[3] + rng.choice([1, 2, 31, 128]) if rng.random() < 0.7 or tg[3] == 0 else tg[3] - 1
+        num = tg[3] + rng.choice([1, 2, 31, 128] + COLLIDERS) if rng.random() < 0.8 or tg[3] == 0 else tg[3] - 1
         new = ('tag', tg[1], tg[2], num, tg[4])
     # rebuild
     inner = new[4]
